@@ -354,13 +354,16 @@ Definition nodes_event (s : st) (l : list N) (ll : list (N * bool)) : st * bool 
     the function then returns "quiting" instead of sleeping 5 s and re-reading)
    result: (error?, register, attempts). *)
 Inductive awres := AWErr | AWOk | AWPanic.
-Definition add_and_wait (env : answers) (r : reg) (place : placement) : awres * reg * list attempt :=
+(* snap: the RaftNodes of the caller's snapshot (parameter namespaceInfo), used only to choose the candidate;
+   every check and the add itself use nInfo, the value re-read from the register in the loop *)
+Definition add_and_wait_snap (env : answers) (r : reg) (place : placement) (snap : list N)
+  : awres * reg * list attempt :=
   match place with
   | PErr => (AWErr, r, [])
   | PPanic => (AWPanic, r, [])
   | PList l =>
       let info := r_info r in
-      match filter (fun n => negb (mem n (raft_nodes info))) l with
+      match filter (fun n => negb (mem n snap)) l with
       | [] => (AWErr, r, [])
       | nid :: _ =>
           if node_full_ready env info nid then (AWOk, r, [])
@@ -369,6 +372,9 @@ Definition add_and_wait (env : answers) (r : reg) (place : placement) : awres * 
           else let '(_, r', _, w) := add_to_node r info nid in (AWErr, r', w)
       end
   end.
+(* the callers' snapshot is the stored value when nothing happened in between *)
+Definition add_and_wait (env : answers) (r : reg) (place : placement) : awres * reg * list attempt :=
+  add_and_wait_snap env r place (raft_nodes (r_info r)).
 
 (* ---------- pd_api.go MarkNodeAsRemoving ---------- *)
 Definition mark_node (s : st) (n : N) : st :=
@@ -662,7 +668,9 @@ Inductive event :=
   | ELRemoveAll
   | EReplica (r : N)        (* pd_api.go ChangeNamespaceMetaParam(newReplicator = r) *)
   | EUpgrade (b : bool)     (* pd_api.go SetClusterUpgradeState *)
-  | ERegMode (m : N).       (* the register becomes healthy / partly / wholly unreachable *)
+  | ERegMode (m : N)        (* the register becomes healthy / partly / wholly unreachable *)
+  | EAddWait (snap : list N) (place : placement).
+                            (* addNodeToNamespaceAndWaitReady called with a snapshot taken earlier (RaftNodes = snap) *)
 
 (* events that look at no partition's replica info, waiting stamp or data-node answers *)
 Definition is_global (e : event) : bool :=
@@ -702,6 +710,9 @@ Definition step (s : st) (e : event) : st * ret * list attempt :=
       (upd_reg s r, RNone, w)
   | EFail k => (upd_reg s (mkReg (r_info (s_reg s)) (r_counter (s_reg s)) k (r_mode (s_reg s))), RNone, [])
   | ERegMode m => (upd_reg s (mkReg (r_info (s_reg s)) (r_counter (s_reg s)) (r_fail (s_reg s)) m), RNone, [])
+  | EAddWait snap place =>
+      let '(res, r, w) := add_and_wait_snap (s_ans s) (s_reg s) place snap in
+      (upd_reg s r, match res with AWOk => RCode COk | AWErr => RCode CRegErr | AWPanic => RPanic end, w)
   | EAuto b =>
       (mkSt (s_replica s) (s_reg s) (s_ans s) (s_nodes s) (s_nepoch s) (s_stable s)
             (s_unstable s) b (s_waiting s) (s_rmnodes s) (s_now s) (s_lnodes s) (s_lstart s) (s_upgrading s), RNone, [])
